@@ -140,7 +140,7 @@ class Custom(WorldStream):
                         "sm_arg": rng.choice([None, None, None, "", "_serialize", "_custom_ser", "_nosuch"]),
                         "ia_arg": rng.choice([None, None, None, "", "_ignore", "_other_ignore"]),
                         "ign_arg": rng.choice([None, None, []] + [rng.sample(names, rng.randint(1, min(4, len(names))))] * 2),
-                        "copies": rng.choice([0, 0, 1, 2])}
+                        "copies": rng.choice([0, 0, 1, 2]), "late": rng.random() < 0.3}
                 cases.append(case)
         return cases
 
@@ -162,8 +162,18 @@ class Custom(WorldStream):
         i, w = self.world_of(case)
         obj = w.build(case["value"])
         view = w.model_view(obj)
-        cfg = self.C.Config(serialize_method=case["cfg_sm"], ignore_attribute=case["cfg_ia"],
-                            serialize_handlers=self.handler_table(w, case["handlers"]))
+        if case.get("late"):
+            # the handlers are registered on a configuration that has already been used for a dump: a Config is a live object,
+            # what counts is its content at the time of the call
+            cfg = self.C.Config(serialize_method=case["cfg_sm"], ignore_attribute=case["cfg_ia"])
+            try:
+                self.JC.dump(w.build(case["value"]), case["sm_arg"], case["ia_arg"], None, cfg)
+            except Exception:      # noqa  (the warm-up dump may legitimately fail without the handlers)
+                pass
+            cfg.serialize_handlers.update(self.handler_table(w, case["handlers"]))
+        else:
+            cfg = self.C.Config(serialize_method=case["cfg_sm"], ignore_attribute=case["cfg_ia"],
+                                serialize_handlers=self.handler_table(w, case["handlers"]))
         # a configuration derived with Config.copy() must customise the dump in the same way
         for _ in range(case.get("copies", 0)):
             cfg = cfg.copy()
@@ -335,12 +345,14 @@ class Custom(WorldStream):
     def to_replay(self, case):
         j = WorldStream.to_replay(self, {"world": [d for d in case["world"]], "value": case["value"]})
         j.update({k: case[k] for k in ("cfg_sm", "cfg_ia", "sm_arg", "ia_arg", "ign_arg")})
+        j["copies"], j["late"] = case.get("copies", 0), bool(case.get("late"))
         j["handlers"] = [[list(k), h] for k, h in case["handlers"]]
         return j
 
     def from_replay(self, j):
         c = WorldStream.from_replay(self, j)
         c.update({k: j[k] for k in ("cfg_sm", "cfg_ia", "sm_arg", "ia_arg", "ign_arg")})
+        c["copies"], c["late"] = j.get("copies", 0), bool(j.get("late"))
         c["handlers"] = [((k[0], k[1]), h) for k, h in j["handlers"]]
         return c
 
